@@ -915,6 +915,7 @@ _pin_many("C01", "navSrc", [("schema_instance", "NDNav.name"), ("schema_instance
                             ("schema_instance", "RefToLocation.referent"), ("schema_instance", "RefToLocation.properties")])
 _pin_many("C01", "odoFileSrc", [("workbook", "COBOL_EBCDIC_Sheet.set_schema"), ("workbook", "COBOL_EBCDIC_Sheet.row_iter"),
                                 ("schema_instance", "EBCDIC.instance_iter"), ("schema_instance", "EBCDIC.used")])
+_pin_many("C04", "setSchemaSrc", [("workbook", "COBOL_EBCDIC_Sheet.set_schema")])
 _pin_many("C07", "structureSrc", [("cobol_parser", "structure"), ("cobol_parser", "DDE.__init__"), ("cobol_parser", "schema_iter")])
 _pin_many("C07", "schemaMakerSrc", [("cobol_parser", "JSONSchemaMaker.__init__"), ("cobol_parser", "JSONSchemaMaker.jsonschema"),
                                     ("cobol_parser", "JSONSchemaMaker.build_json_schema")])
